@@ -312,6 +312,7 @@ def check(tier, seed):
         io = lib.run_lines([exe], cases)
         mo = lib.run_model("c12", [model_line(cs) for cs in cases], group=GROUP)
         verdicts = judge_all(cases, io)
+        lib.config_differential(c, "c12", ["c12.cpp"], cases, io, judge=judge, libs=LIBS, limit=400)
         # graphs with more than 2^16 vertices: judged against the property text only (one process each, in parallel)
         import random
         bigs = big_wheels(random.Random(seed * 7919 + 1212))
